@@ -324,8 +324,8 @@ fn main() {
         }
     });
     println!(
-        "C17S-RESULT programs={} every_interleaving={} schedules={} violations={} not_run_because_of_the_time_cap={}",
-        nprog.load(AO::SeqCst), nfull.load(AO::SeqCst), nsched.load(AO::SeqCst), nviol.load(AO::SeqCst), capped.load(AO::SeqCst)
+        "C17S-RESULT programs={} every_interleaving={} schedules={} violations={} not_run_because_of_the_time_cap={} cell_accesses_are_scheduling_points={}",
+        nprog.load(AO::SeqCst), nfull.load(AO::SeqCst), nsched.load(AO::SeqCst), nviol.load(AO::SeqCst), capped.load(AO::SeqCst), verif_std::cell::WRAPPED as u8
     );
 }
 
